@@ -31,7 +31,7 @@ pub open spec fn decode(s: Seq<char>) -> Seq<char> decreases s.len() {
 
 
 def build(repo):
-    u = Unit(NAME, TOOL, PROPS, ["src/compile.rs: compile_quoted_string_ex", "src/compile.rs: CompilerState::compile_quoted_string (statements after the loop, R8)"],
+    u = Unit(NAME, TOOL, PROPS, ["src/compile.rs: compile_quoted_string_ex", "src/compile.rs: CompilerState::compile_quoted_string (statements after the loop, R8)", "src/cpp.rs: process() (string-literal extraction window: marker number, counter, table push, R8)"],
              assumptions=["A-vstd: prophetic iterator specification of str::chars()", "A-spec: char::from_u32 returns Some(v as char) for scalar values",
                           "termination of the decoding loop is not proved (R9): IteratorSpec::decrease() is not known to decrease across a None result",
                           "the loop of compile_quoted_string over the pest Pairs of adjacent literals (concatenation) and the quoted_character arm of parse_int are not under contract; only its tail (NUL termination) is"])
@@ -83,7 +83,33 @@ fn quoted_string_tail(v: String) -> (r: String)
 %s
 }
 """ % tail.text
-    text = common.PRELUDE + common.header_comment(NAME, cuts) + "verus! {\n" + SPECS + q.text + "\n" + tail_fn + common.CANARY + "\n} // verus!\n"
+    # R8: the literal-extraction window of cpp::process: the marker written into the text must be the table index of the literal pushed
+    cpp = SourceFile(repo, "src/cpp.rs")
+    ps, pob, pcb = cpp.find_fn_span("process")
+    win = cpp.block(r"^\s*uncommented_buf\s*$|^\s*uncommented_buf\.push_str\(&format!\(|^\s*\.push_str\(&format!\(\"\{\}@\{\}@\"", r"^\s*remaining = &remaining\[cursor \+ 1\.\.\];", ps, pcb,
+                    desc="cpp::process(): string-literal extraction window (marker, counter, table push) (R8)")
+    cuts.append(win)
+    n1 = win.sub(r"uncommented_buf\s*\.push_str\(&format!\(\"\{\}@\{\}@\", left, ([^)]+)\)\);", r"let __marker: u32 = \1;", "R8 the marker number written into the text becomes the result", expect=1)
+    win.sub(r"let s = remaining\[[^;]*\]\.to_string\(\);", "let s = lit;", "R8 the literal's text becomes a parameter", expect=1)
+    st = cpp.item("enum", "State")
+    common.r2(st)
+    st.sub(r"#\[derive\(([^)]*)\)\]", "#[derive(Eq, PartialEq, Copy, Clone, Structural)]", "R2-derive+structural")
+    cuts.append(st)
+    win_fn = st.text + """
+pub struct Context { pub literal_strings: Vec<String>, pub literal_strings_number: u32 }      // R6 shim: the two fields the window touches
+// R8: cpp::process(), from writing the @N@ marker to pushing the literal's raw text, verbatim (free variables are parameters)
+fn literal_window(context: &mut Context, lit: String, state: State, in_multiline_comments: bool) -> (marker: u32)
+    requires old(context).literal_strings_number == old(context).literal_strings@.len(), old(context).literal_strings@.len() < 0xffff_fff0,
+    ensures
+        final(context).literal_strings@ == old(context).literal_strings@.push(lit), //@ C09:literal-text-stored-verbatim
+        marker == old(context).literal_strings@.len(), //@ C09:marker-names-the-stored-literal
+        final(context).literal_strings_number == final(context).literal_strings@.len(), //@ C09:marker-counter-tracks-table
+{
+%s
+    __marker
+}
+""" % win.text
+    text = common.PRELUDE + common.header_comment(NAME, cuts) + "verus! {\n" + SPECS + q.text + "\n" + tail_fn + win_fn + common.CANARY + "\n} // verus!\n"
     u.text[None] = text
     u.rewrites = common.collect_rewrites(cuts)
     u.dropped = ["R10: while-let desugared to loop/match (Rust reference definition)"]
